@@ -131,6 +131,8 @@ package object
 //@   modifies nothing
 //@ func nativeStructToObject
 //@   requires val != nil
+//@   call NativeToObject#0: bind fieldObj
+//@   goal nil-only-when-a-field-is-unsupported: result == nil ==> fieldObj == nil
 //@   modifies nothing
 //@   loop 0: invariant i >= 0 && fresh(obj) && obj.Pairs != nil && fresh(obj.Pairs) && valType != nil
 //@ func nativeSliceToArrayObject
